@@ -1,17 +1,214 @@
 import EpdVerif.Drivers.Dsl
 import EpdVerif.Gen.Epd2in13_v2
-/-! model of `src/epd2in13_v2/mod.rs` (STUB: programs not yet transcribed) -/
+/-! model of `src/epd2in13_v2/mod.rs` (and the byte builders of its `command.rs`) -/
 namespace EpdVerif.Drivers.Epd2in13_v2
 open EpdVerif
 open EpdVerif.Gen.Epd2in13_v2
 
-def prog (_f : Feat) (_d : DState) : Op → Option (List Act)
+def W : Act := .wait IS_BUSY_LOW
+
+/-! ## `command.rs` helpers -/
+
+/-- `BitField::set_bit` on a `u8` -/
+def setBit (v i : Nat) (b : Bool) : Nat :=
+  (v &&& (0xFF ^^^ (1 <<< i))) ||| (if b then 1 <<< i else 0)
+
+/-- `BitField::set_bits(lo..hi, x)` on a `u8` -/
+def setBits (v lo hi x : Nat) : Nat :=
+  (v &&& (0xFF ^^^ (((1 <<< (hi - lo)) - 1) <<< lo))) ||| (x <<< lo)
+
+/-- `DriverOutput::to_bytes` -/
+def driverOutputBytes (scanIsLinear scanG0IsFirst scanDirIncr : Bool) (width : Nat) : Bytes :=
+  [u8 width, shr8 width 8,
+   u8 (setBit (setBit (setBit 0 0 (!scanDirIncr)) 1 (!scanG0IsFirst)) 2 (!scanIsLinear))]
+
+/-- `DisplayUpdateControl2` builder -/
+def duc2New : Nat := 0x00
+def disableClock (v : Nat) : Nat := setBit v 0 true
+def disableAnalog (v : Nat) : Nat := setBit v 1 true
+def display (v : Nat) : Nat := setBit v 2 true
+def enableClock (v : Nat) : Nat := setBit v 6 true
+def enableAnalog (v : Nat) : Nat := setBit v 7 true
+
+/-- `BorderWaveForm::to_u8` -/
+def borderWaveForm (vbd fixLevel gsTrans : UInt8) : UInt8 :=
+  u8 (setBits (setBits (setBits 0 6 8 vbd.toNat) 4 6 fixLevel.toNat) 0 2 gsTrans.toNat)
+
+/-- `I32Ext::vcom` (`none` = the `assert!` fails) -/
+def vcom (v : Int) : Option UInt8 :=
+  if -30 ≤ v ∧ v ≤ -2 then
+    some (match (-v).toNat with
+      | 2 => 0x08 | 3 => 0x0B | 4 => 0x10 | 5 => 0x14 | 6 => 0x17 | 7 => 0x1B | 8 => 0x20
+      | 9 => 0x24 | 10 => 0x28 | 11 => 0x2C | 12 => 0x2F | 13 => 0x34 | 14 => 0x37 | 15 => 0x3C
+      | 16 => 0x40 | 17 => 0x44 | 18 => 0x48 | 19 => 0x4B | 20 => 0x50 | 21 => 0x54 | 22 => 0x58
+      | 23 => 0x5B | 24 => 0x5F | 25 => 0x64 | 26 => 0x68 | 27 => 0x6C | 28 => 0x6F | 29 => 0x73
+      | 30 => 0x78 | _ => 0)
+  else none
+
+/-- `I32Ext::gate_driving_decivolt` -/
+def gateDrivingDecivolt (v : Int) : Option UInt8 :=
+  if (100 ≤ v ∧ v ≤ 210) ∧ Int.tmod v 5 = 0 then
+    some (u8 (Int.tdiv (v - 100) 5 + 0x03).toNat)
+  else none
+
+/-- `I32Ext::source_driving_decivolt` -/
+def sourceDrivingDecivolt (v : Int) : Option UInt8 :=
+  if (24 ≤ v ∧ v ≤ 88) ∨ (Int.tmod v 5 = 0 ∧ (90 ≤ v.natAbs ∧ v.natAbs ≤ 180)) then
+    if 24 ≤ v ∧ v ≤ 88 then some (u8 ((v - 24) + 0x8E).toNat)
+    else if 90 ≤ v ∧ v ≤ 180 then some (u8 (Int.tdiv (v - 90) 2 + 0x23).toNat)
+    else some (u8 (Int.tdiv (-v - 90) 5 * 2 + 0x1A).toNat)
+  else none
+
+/-- use a computed byte, or panic where the helper's `assert!` fails -/
+def withV (o : Option UInt8) (k : UInt8 → List Act) : List Act :=
+  match o with
+  | some v => k v
+  | none => [.panic]
+
+/-! ## private methods of the driver -/
+
+def setGateScanStartPosition (start : Nat) : List Act :=
+  assertA (start ≤ 295) ++
+  cmdData Command.GateScanStartPosition [u8 (start &&& 0xFF), u8 ((start >>> 8) &&& 0x1)]
+
+def setBorderWaveform (vbd fixLevel gsTrans : UInt8) : List Act :=
+  cmdData Command.BorderWaveformControl [borderWaveForm vbd fixLevel gsTrans]
+
+def setVcomRegister (v : Int) : List Act :=
+  withV (vcom v) fun b => cmdData Command.WriteVcomRegister [b]
+
+def setGateDrivingVoltage (v : Int) : List Act :=
+  withV (gateDrivingDecivolt v) fun b => cmdData Command.GateDrivingVoltageCtrl [b]
+
+def setSourceDrivingVoltage (vsh1 vsh2 vsl : Int) : List Act :=
+  withV (sourceDrivingDecivolt vsh1) fun a =>
+  withV (sourceDrivingDecivolt vsh2) fun b =>
+  withV (sourceDrivingDecivolt vsl) fun c =>
+    cmdData Command.SourceDrivingVoltageCtrl [a, b, c]
+
+def setDummyLinePeriod (n : Nat) : List Act :=
+  assertA (n ≤ 127) ++ cmdData Command.SetDummyLinePeriod [u8 n]
+
+def setGateLineWidth (w : Nat) : List Act :=
+  cmdData Command.SetGateLineWidth [u8 (w &&& 0x0F)]
+
+def setDisplayUpdateControl2 (v : Nat) : List Act :=
+  cmdData Command.DisplayUpdateControl2 [u8 v]
+
+def setSleepMode (m : UInt8) : List Act := cmdData Command.DeepSleepMode [m]
+
+def setDataEntryMode (incr dir : UInt8) : List Act :=
+  cmdData Command.DataEntryModeSetting [incr ||| dir]
+
+/-- `set_ram_area`: no wait, no asserts -/
+def setRamArea (sx sy ex ey : Nat) : List Act :=
+  cmdData Command.SetRamXAddressStartEndPosition [shr8 sx 3, shr8 ex 3] ++
+  cmdData Command.SetRamYAddressStartEndPosition [u8 sy, shr8 sy 8, u8 ey, shr8 ey 8]
+
+def setRamAddressCounters (x y : Nat) : List Act :=
+  [W] ++ cmdData Command.SetRamXAddressCounter [shr8 x 3] ++
+  cmdData Command.SetRamYAddressCounter [u8 y, shr8 y 8]
+
+def fullArea : List Act :=
+  setRamArea 0 0 (WIDTH - 1) (HEIGHT - 1) ++ setRamAddressCounters 0 0
+
+/-- `buffer_len(WIDTH, HEIGHT)` -/
+def bufferLen : Nat := (WIDTH + 7) / 8 * HEIGHT
+
+def lutFull (f : Feat) : Bytes := if f.v2 then LUT_FULL_UPDATE_v2 else LUT_FULL_UPDATE_v3
+def lutPartial (f : Feat) : Bytes := if f.v2 then LUT_PARTIAL_UPDATE_v2 else LUT_PARTIAL_UPDATE_v3
+
+/-- `set_lut`: does not store the mode; `None` means the full table -/
+def setLut (f : Feat) (r : Option Refresh) : List Act :=
+  cmdData Command.WriteLutRegister
+    (match r with
+     | some .quick => lutPartial f
+     | _ => lutFull f)
+
+/-- `init` with `self.refresh = r` -/
+def init (f : Feat) (r : Refresh) : List Act :=
+  [.reset 10000 10000] ++
+  (match r with
+   | .quick =>
+     setVcomRegister (-9) ++ [W] ++
+     setLut f (some r) ++
+     setDisplayUpdateControl2 (enableClock (enableAnalog duc2New)) ++
+     [.cmd Command.MasterActivation, W] ++
+     setBorderWaveform BorderWaveFormVbd.Gs BorderWaveFormFixLevel.Vss BorderWaveFormGs.Lut1
+   | .full =>
+     [W, .cmd Command.SwReset, W] ++
+     cmdData Command.DriverOutputControl (driverOutputBytes true true true ((HEIGHT - 1) % 65536)) ++
+     setDummyLinePeriod 0x30 ++
+     setGateScanStartPosition 0 ++
+     setDataEntryMode DataEntryModeIncr.XIncrYIncr DataEntryModeDir.XDir ++
+     setRamArea 0 0 (WIDTH - 1) (HEIGHT - 1) ++
+     setRamAddressCounters 0 0 ++
+     setBorderWaveform BorderWaveFormVbd.Gs BorderWaveFormFixLevel.Vss BorderWaveFormGs.Lut3 ++
+     setVcomRegister (-21) ++
+     setGateDrivingVoltage 190 ++
+     setSourceDrivingVoltage 150 50 (-150) ++
+     setGateLineWidth 10 ++
+     setLut f (some r)) ++
+  [W]
+
+def setPartialBaseBuffer (b : Bytes) : List Act :=
+  assertA (bufferLen = b.length) ++ fullArea ++ cmdData Command.WriteRamRed b
+
+def updateFrame (d : DState) (b : Bytes) : List Act :=
+  assertA (b.length = bufferLen) ++ fullArea ++ cmdData Command.WriteRam b ++
+  (match d.refresh with
+   | .full => fullArea ++ cmdData Command.WriteRamRed b
+   | .quick => [])
+
+def displayFrame (d : DState) : List Act :=
+  (match d.refresh with
+   | .full =>
+     setDisplayUpdateControl2
+       (disableClock (disableAnalog (display (enableAnalog (enableClock duc2New)))))
+   | .quick => setDisplayUpdateControl2 (display duc2New)) ++
+  [.cmd Command.MasterActivation, W]
+
+def prog (f : Feat) (d : DState) : Op → Option (List Act)
+  | .new => some (init f d.refresh)
+  | .wake => some (init f d.refresh)
+  | .sleep =>
+    some ([W] ++
+      setDisplayUpdateControl2 (disableClock (disableAnalog (enableClock (enableAnalog duc2New)))) ++
+      [.cmd Command.MasterActivation] ++
+      setSleepMode d.sleepMode)
+  | .upd b => some (updateFrame d b)
+  | .part b x y w h =>
+    some (assertA (w * h / 8 = b.length) ++ assertA (d.refresh = .full) ++
+      setRamArea x y (x + w) (y + h) ++ setRamAddressCounters x y ++
+      cmdData Command.WriteRam b ++
+      (match d.refresh with
+       | .full =>
+         setRamArea x y (x + w) (y + h) ++ setRamAddressCounters x y ++
+         cmdData Command.WriteRamRed b
+       | .quick => []))
+  | .disp => some (displayFrame d)
+  | .updisp b =>
+    some (updateFrame d b ++ displayFrame d ++
+      (match d.refresh with
+       | .quick => setPartialBaseBuffer b
+       | .full => []))
+  | .clear =>
+    some (fullArea ++ [.cmd Command.WriteRam, .rep (byteValue d.bg) bufferLen] ++
+      (match d.refresh with
+       | .full => fullArea ++ [.cmd Command.WriteRamRed, .rep (byteValue d.bg) bufferLen]
+       | .quick => []))
+  | .bg c => some [.upd (fun d => { d with bg := c })]
+  | .lut r => some (setLut f r)
+  | .wait => some [W]
+  | .base b => some (setPartialBaseBuffer b)
+  | .refresh r =>
+    some (if d.refresh ≠ r then [Act.upd (fun d => { d with refresh := r })] ++ init f r else [])
   | _ => none
 
 def panel (f : Feat) : Panel :=
   { name := "epd2in13_v2", width := WIDTH, height := HEIGHT, single := SINGLE_BYTE_WRITE,
     busyLow := IS_BUSY_LOW, family := .ssd, colors := 2,
-    init := { bg := DEFAULT_BACKGROUND_COLOR },
+    init := { bg := DEFAULT_BACKGROUND_COLOR, refresh := .full, sleepMode := DeepSleepMode.Mode1 },
     prog := prog f,
     ctrl := .ssd (Ssd.por false 20 296) }
 
